@@ -281,8 +281,8 @@ func CheckOrder(ref *progen.RefResult, res *Result) []string {
 	for _, o := range res.Jobs {
 		byKey[o.Key] = o
 	}
-	finished := map[string]int{}   // call path -> finished final jobs
-	finKeys := map[string]bool{}   // job keys finished successfully
+	finished := map[string]int{} // call path -> finished final jobs
+	finKeys := map[string]bool{} // job keys finished successfully
 	forkSplitDone := map[string]bool{}
 	chunkDone := map[string]int{}
 	chunkSub := map[string]int{}
@@ -336,7 +336,6 @@ func CheckOrder(ref *progen.RefResult, res *Result) []string {
 	}
 	return out
 }
-
 
 // logMarker tags messages whose cause is only visible further down the log.
 func logMarker(log string) string {
